@@ -405,7 +405,8 @@ class Bits:
       if other.nbits != nbits:
         raise ValueError( f"Operands of '==' (eq) operation must have matching bitwidth, "\
                           f"but here Bits{nbits} != Bits{other.nbits}.\n" )
-      return _new_valid_bits( 1, self._uint == other._uint )
+      # ( a bitstruct of the same width compares by its packed value )
+      return _new_valid_bits( 1, self._uint == other.to_bits()._uint )
     except AttributeError:
       try:
         other = int(other)
@@ -423,7 +424,7 @@ class Bits:
       if other.nbits != nbits:
         raise ValueError( f"Operands of '!=' (ne) operation must have matching bitwidth, "\
                           f"but here Bits{nbits} != Bits{other.nbits}.\n" )
-      return _new_valid_bits( 1, self._uint != other._uint )
+      return _new_valid_bits( 1, self._uint != other.to_bits()._uint )
     except AttributeError:
       try:
         other = int(other)
